@@ -6,7 +6,7 @@ use tensor_store::{ScalarValue, TensorData, TensorStore, TensorValue};
 use crate::{
     chunker::{Chunk, Chunker, StreamingHasher},
     error::{BlobError, Result},
-    gc::increment_chunk_refs,
+    gc::{increment_chunk_refs, lock_refs},
     metadata::PutOptions,
 };
 
@@ -95,6 +95,10 @@ impl BlobWriter {
     /// Store a chunk, handling deduplication.
     fn store_chunk(&mut self, chunk: Chunk) -> Result<()> {
         let chunk_key = chunk.key();
+
+        // "exists? increment : create" is one critical section with respect to other
+        // writers, artifact deletion and the collector.
+        let _refs = lock_refs();
 
         // Check if chunk already exists (deduplication)
         if self.store.exists(&chunk_key) {
